@@ -240,6 +240,12 @@ struct App {
     expect_in: u64,
     warmup: bool,
     early_started: bool,
+    p_opened: bool,
+    p_avail: bool,
+    p_dgram_rx: bool,
+    p_dgram_unblocked: bool,
+    p_readable: Vec<StreamId>,
+    p_writable: Vec<StreamId>,
 }
 
 struct ConnSt {
@@ -290,6 +296,7 @@ pub struct World {
     link_mtu: usize,
     conn_counter: usize,
     steps: u64,
+    accepted_pairs: Vec<usize>,
 }
 
 fn ecn_code(e: Option<EcnCodepoint>) -> i128 {
@@ -433,6 +440,7 @@ impl World {
             link_mtu: p.get(k::LINK_MTU, 1500) as usize,
             conn_counter: 0,
             steps: 0,
+            accepted_pairs: Vec::new(),
             p,
         };
         let (cert, key) = load_cert();
@@ -505,6 +513,12 @@ impl World {
             expect_in: 0,
             warmup: false,
             early_started: false,
+            p_opened: false,
+            p_avail: false,
+            p_dgram_rx: false,
+            p_dgram_unblocked: false,
+            p_readable: Vec::new(),
+            p_writable: Vec::new(),
         }
     }
 
@@ -745,7 +759,11 @@ impl World {
                 } else {
                     match self.eps[epi].ep.accept(incoming, now, &mut buf, None) {
                         Ok((ch, conn)) => {
-                            let idx = pair_idx;
+                            // a replayed Initial may open a second attempt under the same pair
+                            // identity: later incarnations get index pair + 1000 * k
+                            let prev = self.accepted_pairs.iter().filter(|p| **p == pair_idx).count();
+                            self.accepted_pairs.push(pair_idx);
+                            let idx = pair_idx + 1000 * prev;
                             let mut app = self.new_app(false, idx);
                             if self.p.get(k::ZERO_RTT, 0) > 0 && idx == 0 {
                                 app.warmup = true;
@@ -807,12 +825,13 @@ impl World {
         let conn = &mut cs.conn;
         let app = &mut cs.app;
         // events
-        let mut writable: Vec<StreamId> = Vec::new();
-        let mut readable: Vec<StreamId> = Vec::new();
-        let mut opened = false;
-        let mut avail = false;
-        let mut dgram_rx = false;
-        let mut dgram_unblocked = false;
+        // event-derived work survives until the application is able to act on it
+        let mut writable: Vec<StreamId> = std::mem::take(&mut app.p_writable);
+        let mut readable: Vec<StreamId> = std::mem::take(&mut app.p_readable);
+        let mut opened = std::mem::take(&mut app.p_opened);
+        let mut avail = std::mem::take(&mut app.p_avail);
+        let mut dgram_rx = std::mem::take(&mut app.p_dgram_rx);
+        let mut dgram_unblocked = std::mem::take(&mut app.p_dgram_unblocked);
         while let Some(ev) = conn.poll() {
             did = true;
             match ev {
@@ -902,7 +921,14 @@ impl World {
                 tr.push(vec![3, t, e, c, 11, 41, 0, 0]);
                 did = true;
             }
-        } else if !app.lost && !app.closed_local && can_start {
+        } else if !(!app.lost && !app.closed_local && can_start) {
+            app.p_writable = writable;
+            app.p_readable = readable;
+            app.p_opened = opened;
+            app.p_avail = avail;
+            app.p_dgram_rx = dgram_rx;
+            app.p_dgram_unblocked = dgram_unblocked;
+        } else {
             // open streams
             if !app.started || avail {
                 app.started = true;
@@ -912,9 +938,7 @@ impl World {
                             app.want_bidi -= 1;
                             tr.push(vec![3, t, e, c, 1, u64::from(id) as i128, 0, 0]);
                             app.out.push(OutStream { id, total: app.stream_bytes, written: 0, finished: false, reset: false, stopped: false, fin_acked: false });
-                            if app.echo_bytes > 0 {
-                                app.expect_in += 1;
-                            }
+                            app.expect_in += 1;
                             writable.push(id);
                             did = true;
                         }
@@ -1008,7 +1032,7 @@ impl World {
                     tr.push(vec![3, t, e, c, 8, sid as i128, 77, r.is_ok() as i128]);
                 }
                 // echo: once a bidi stream from the peer is fully read, reply on it
-                if ins.done && app.echo_bytes > 0 && !app.is_client && id.dir() == Dir::Bi && id.initiator() == Side::Client {
+                if ins.done && !app.is_client && id.dir() == Dir::Bi && id.initiator() == Side::Client {
                     if !app.out.iter().any(|o| o.id == id) {
                         app.out.push(OutStream { id, total: app.echo_bytes, written: 0, finished: false, reset: false, stopped: false, fin_acked: false });
                         writable.push(id);
@@ -1252,7 +1276,11 @@ impl World {
                 let eev = self.eps[epi].zombies[z].conn.poll_endpoint_events();
                 let idx = self.eps[epi].zombies[z].conn_index as i128;
                 if tr.is_some() || ev.is_some() || dl.is_some() || eev.is_some() {
-                    self.trace.push(vec![12, self.now as i128, epi as i128, idx, tr.is_some() as i128, ev.is_some() as i128, dl.is_some() as i128, eev.is_some() as i128]);
+                    let base = self.base + Duration::from_micros(self.p.get(k::SHIFT_US, 0) as u64);
+                    let pr = self.eps[epi].zombies[z].conn.verif_probe(base);
+                    let mut rec = vec![12, self.now as i128, epi as i128, idx, tr.is_some() as i128, ev.is_some() as i128, dl.is_some() as i128, eev.is_some() as i128];
+                    rec.extend_from_slice(&pr[18..27]);
+                    self.trace.push(rec);
                 }
             }
         }
@@ -1561,6 +1589,11 @@ fn header_flags(d: &[u8]) -> i128 {
 
 pub fn run_case(ops: &[Vec<i128>]) -> Vec<Vec<i128>> {
     let mut w = World::new(P::from_ops(ops));
-    w.run();
+    // a panic inside the real endpoints is an outcome: keep the trace up to it, then record 16
+    let r = std::panic::catch_unwind(std::panic::AssertUnwindSafe(|| w.run()));
+    if r.is_err() {
+        let t = w.now as i128;
+        w.trace.push(vec![16, t, 1]);
+    }
     w.trace
 }
